@@ -147,7 +147,12 @@ def gen_cases(rnd, tier):
                 bad = rnd.choice(["NOSUCHITEM", "SVIDX", "Svid", "L2", "<"]) if rnd.random() < 0.9 else toks[i] + "_"
                 if bad != "<":
                     lits.append(("unknown_item", case_lit(render(toks[:i] + [bad] + toks[i + 1 :], rnd), None, 2)))
-        elif c < 0.6:
+        elif c < 0.7:
+            # a complete definition, and behind it: a list that is not closed / an unknown item / loose brackets (mutation 1 / 2)
+            tail, mut = rnd.choice([(["<"], 1), (["<", "L", "<", "SVID", ">"], 1), (["<", "SVID"], 1), (["<", "NOSUCHITEM", ">"], 2), (["<", "L", "<", "XYZ9", ">", ">"], 2),
+                                    ([">"], 1), ([">", ">"], 1), (["<", "SVID", ">", "<"], 1)])
+            lits.append(("trailing", case_lit(render(toks + tail, rnd), None, mut)))
+        elif c < 0.8:
             # arbitrary token soup: compared with the model only
             soup = [rnd.choice(["<", ">", "L", "SVID", "X", "l", "svid", "#c\n"]) for _ in range(rnd.randint(0, 12))]
             lits.append(("soup", case_lit(" ".join(soup), None, 0)))
